@@ -1458,8 +1458,8 @@ class FnTranslator:
         if m == 'pop' and len(args) == 2 and self.heap:
             kx = ex.key_term(args[0], t[1])
             dx, _ = ex.expr(args[1], t[2])
-            return '(PyRt.Dict.popD %s %s %s).1' % (d, kx, dx), t[2], [
-                ('self.' + attr, '(PyRt.Dict.popD %s %s %s).2' % (d, kx, dx))]
+            v = ex.partial('(Except.ok (PyRt.Dict.popD %s %s %s) : Except PyExc _)' % (d, kx, dx), node)   # cannot raise
+            return v + '.1', t[2], [('self.' + attr, v + '.2')]
         if m == 'popitem' and not args:
             v = ex.partial('PyRt.Dict.popitem? %s' % d, node)
             return v + '.1', ('Prod', (t[1], t[2])), [('self.' + attr, v + '.2')]
